@@ -126,6 +126,7 @@ func main() {
 	genDriver(*repo, *out)
 	genOps(*repo, *out)
 	genOrder(*repo, *out)
+	genStatus(*repo, *out)
 	genSource(*repo, *out)
 }
 
